@@ -1312,3 +1312,55 @@ def _slice_locals(f, o):
     if not is_const(o):
         visit(op_place(o)["l"])
     return out
+
+
+EC_CARRIERS = re.compile(r"ops::Try>::branch$|::with_context$|::context$|::map_err$|Result::<.*>::(map|and_then|ok)$|Option::<.*>::(map|and_then)$|"
+                         r"::unwrap$|::expect$|::unwrap_or$|::unwrap_or_default$|::into$|::from$|Clone>::clone$|ToOwned>::to_owned$|load_overrides$")
+
+
+def rule_ec_per_file(ctx, prop):
+    """EditorConfig sections are matched against the file's own name: the Config derived from editorconfig::parse belongs to one
+    file and must not be remembered for another (per directory, per resolver)"""
+    rep = Report(prop, "R-EC(per-file)", "the value returned by editorconfig::parse (through `?`, map, context, load_overrides) is only "
+                                         "returned to the caller: it is never inserted into a map or stored in the resolver")
+    for cfg, prog in ctx.programs.items():
+        prog = _view(prog)
+        n = 0
+        for f in prog.fns("stylua"):
+            for b, t in f.calls():
+                if not re.search(r"(^|::)editorconfig::parse$", callee(t)) or not t.get("dst"):
+                    continue
+                n += 1
+                stored = []
+                seen, work = set(), [t["dst"]["l"]]
+                while work:
+                    l = work.pop()
+                    if l in seen:
+                        continue
+                    seen.add(l)
+                    for u in forward_uses(f, l):
+                        if u[0] == "field":
+                            base = u[2]["dst"]["l"]
+                            if base == 1 or any(r == ("arg", 1) for r in provenance(f, {"cp": {"l": base}}, into_aggs=False)):
+                                stored.append("a field of the resolver")
+                        elif u[0] == "agg":
+                            work.append(u[2]["dst"]["l"])
+                        elif u[0] == "call":
+                            c2 = callee(u[2])
+                            if re.search(r"(HashMap|BTreeMap|HashSet|Vec|VecDeque)::<.*>::(insert|push|push_back|entry|extend)$|Entry<.*>::or_insert", c2) and u[3] >= 1:
+                                stored.append(c2.split("::<")[0].split("::")[-1] + "::" + c2.split("::")[-1])
+                            elif EC_CARRIERS.search(c2) and u[2].get("dst") and not u[2]["dst"].get("p"):
+                                work.append(u[2]["dst"]["l"])
+                ok = not stored
+                rep.inst(f"{f.key} editorconfig::parse result is used for this file only", {"locals_followed": len(seen)}, cfg, ok=ok)
+                if not ok:
+                    rep.violation(f"{f.key} editorconfig-config-remembered in={','.join(sorted(set(stored)))}",
+                                  f"{f.path} stores the configuration derived from editorconfig::parse ({sorted(set(stored))}): "
+                                  f".editorconfig sections are globs over the file name (`[*_spec.lua]`, `[vendor/**]`), so a Config "
+                                  f"resolved for one file and reused for another ignores the sections written for the second - the "
+                                  f"same values in stylua.toml or as flags still apply", f.loc(t["sp"]), cfg)
+        if cfg == "nodefault" and not n:
+            rep.note("@nodefault: editorconfig feature not compiled in (no call site to check)")
+        else:
+            rep.floor("editorconfig::parse call sites in the CLI", n, 2, cfg)
+    return rep
